@@ -454,7 +454,7 @@ pub fn run(rep: &Report) {
     );
     rep.assume("reader sets and histories are sampled; threaded interleavings of readers and writers are exercised by C03's stress");
     let n = match rep.tier {
-        Tier::Quick => 12_000u64,
+        Tier::Quick => 40_000u64,
         Tier::Thorough => 600_000u64,
     };
     run_cases(
